@@ -275,6 +275,8 @@ impl Scenario for Series {
         // updates already written in the current series (not offered again within it)
         let mut in_series: BTreeSet<u64> = BTreeSet::new();
         let mut released: BTreeSet<u64> = BTreeSet::new();
+        // updates made after the READ of the current series are not part of its selection
+        let mut series_horizon = next_n;
         let mut steps: Vec<SEv> = path.iter().map(|i| alpha[*i]).collect();
         // drain: read and confirm until nothing is left
         for _ in 0..(self.n + 6) {
@@ -300,6 +302,7 @@ impl Scenario for Series {
                     seq = (seq + 1) & 0x0F;
                     awaited = None;
                     in_series.clear();
+                    series_horizon = next_n;
                     sim.send(&app::request(seq, fc::READ, &app::class_headers(true, false, false, false)));
                     expect_fragment = true;
                 }
@@ -402,8 +405,9 @@ impl Scenario for Series {
                     res.violation = Some(Violation::new("C03.S4", key.clone(), format!("after {ev:?} (step {si}) an empty fragment although updates {pending:?} are owed")));
                     break;
                 }
-                if r.fin() && ids.len() < pending.len() {
-                    res.violation = Some(Violation::new("C03.S4", key.clone(), format!("final fragment leaves updates {:?} unreported", &pending[ids.len()..])));
+                let selected = pending.iter().filter(|k| **k < series_horizon).count();
+                if r.fin() && ids.len() < selected {
+                    res.violation = Some(Violation::new("C03.S4", key.clone(), format!("final fragment leaves updates {:?} unreported", &pending[ids.len()..selected])));
                     break;
                 }
                 for k in &ids {
